@@ -429,6 +429,35 @@ example : ∃ u ∈ unitsOf exCfg exS (.message 3 (some exSet) {}), ∃ p, findP
   obtain ⟨p, hp, hu⟩ := userCheck_sound (s := exS) (c := 3) (a := false) (by decide +kernel)
   exact ⟨p, hp, by simpa using hu⟩
 
+/-! ## 6. passwords never reach an output -/
+
+/-- Two runs that differ only in password strings — the password fields of the credential table
+    (`StRel`: same peers, index, counters; tables equal up to passwords) and the "password" values
+    carried by authenticate / passwd requests (`OpRel`: same operation, or messages whose request
+    objects are pairwise the same or authenticate / passwd requests with the same id and user) —
+    and in which every credential comparison has the same verdict (part of `OpRel`, stated for the
+    contexts in which the request objects are processed) produce IDENTICAL outputs and end in
+    states that again differ in password fields only.  Outputs are a function of the verdicts,
+    not of the password bytes. -/
+theorem password_noninterference (cfg : Config) (s s' : State) (h : StRel s s') (op op' : Op)
+    (hop : OpRel cfg s s' op op') :
+    (step cfg s' op').2 = (step cfg s op).2 ∧ StRel (step cfg s op).1 (step cfg s' op').1 :=
+  step_rel cfg h op op' hop
+
+example : StRel exS exS' ∧ OpRel exCfg exS exS' (exAuthOp "pw2") (exAuthOp "other") := ⟨exS_rel, exOpRel⟩
+
+/-- The same for a single request object in an arbitrary context `x` and the context `wu us' x`
+    that differs from it in the credential table: the second run ends in `wu us'' x₁` for the end
+    context `x₁` of the first run (so: the same outputs, peers, oracle state) with a table `us''`
+    that still agrees up to passwords, and with the same keep/drop decision. -/
+theorem password_noninterference_unit (cfg : Config) (x : Ctx) (c : Nat) (req req' : Json) (us' : List User)
+    (h : PwOnly x.st.users us') (hr : ReqRel req req') (hv : Verdicts x.st.users us' req req') :
+    ∃ us'', PwOnly (parseJsonRpc cfg x c req).1.st.users us'' ∧
+      parseJsonRpc cfg (wu us' x) c req' = (wu us'' (parseJsonRpc cfg x c req).1, (parseJsonRpc cfg x c req).2) :=
+  parseJsonRpc_rel cfg x c h hr hv
+
+example : PwOnly exX.st.users exS'.users := exS_rel.1
+
 /-! ## 7. local-only add -/
 
 /-- With local-only add configured, an add from a peer whose connection was not classified as
